@@ -110,6 +110,19 @@ func treeOps(w *world, st *treeStats, maxDepth int, withRelist bool, withClose b
 		w.refilterRawAll(n)
 		st.nops++
 	}
+	ops["refilterRawNull"] = func(t *rapid.T) {
+		// the library's own accept-everything filter, unwrapped (for a for-filter node possibly its first filter)
+		fs := w.liveFiltered()
+		if len(fs) == 0 || rapid.IntRange(0, 2).Draw(t, "rarely") != 0 {
+			t.Skip("not now")
+		}
+		n := rapid.SampledFrom(fs).Draw(t, "node")
+		if n.filt >= 0 && w.shouldBeReady(n) {
+			st.refilterReady = true
+		}
+		w.refilterRawNull(n, rapid.IntRange(0, len(rawAcceptAll)-1).Draw(t, "spelling"))
+		st.nops++
+	}
 	if withClose {
 		ops["close"] = func(t *rapid.T) {
 			var cs []*node
